@@ -681,7 +681,7 @@ static int write_cif_end(cif_tp *cif UNUSED, void *context) {
 }
 
 static int write_container_start(cif_container_tp *block, void *context) {
-    UChar *code;
+    UChar *code = NULL;
     int result = cif_container_get_code(block, &code);
     const char *this_header_type = header_type[(CONTEXT_DEPTH(context) == 0) ? 0 : 1];
 
@@ -694,8 +694,9 @@ static int write_container_start(cif_container_tp *block, void *context) {
         if (result == CIF_TRAVERSE_CONTINUE) {
             CONTEXT_INC_DEPTH(context, 1);
         }
-        free(code);
     }
+    /* the code is released also when it is not accepted for CIF 1.1 output */
+    free(code);
     return result;
 }
 
